@@ -245,11 +245,13 @@ def _shift_exprs(y, c):
 
 def deviate(x, tables, mark, setall, conj=False):
     """rewrite JSON x so that the reference computes what the known deviations compute.
-    mark: 'nonconj' (IN/NOT IN subqueries outside top-level WHERE conjuncts) | 'all' | None;  setall: bool"""
+    mark: subset of {'nonconj', 'const'}: which IN / NOT IN subqueries become two-valued [NOT] EXISTS --
+      'nonconj' those that are not a top-level conjunct of a WHERE, 'const' those whose left operand has no column;
+    setall: INTERSECT ALL / EXCEPT ALL become semi / anti joins"""
     if not isinstance(x, list) or not x:
         return x
     k = x[0]
-    if k == "insub" and mark and (mark == "all" or not conj):
+    if k == "insub" and (("nonconj" in mark and not conj) or ("const" in mark and not has_node(x[2], lambda n: n[0] == "col"))):
         neg, a, q = x[1], x[2], deviate(x[3], tables, mark, setall)
         a = deviate(a, tables, mark, setall)
         return ["exists", neg, ["filter", ["cmp", "=", ["col", 0, 0], shift(a, 0)], q]]
@@ -288,15 +290,20 @@ def known_variants(c):
     has_in = has_node(q, lambda n: n[0] == "insub")
     has_all = has_node(q, lambda n: n[0] == "setop" and n[1] in ("intersect", "except") and n[2] is True)
     has_outer = has_node(q, lambda n: n[0] == "join" and n[1] in ("left", "right", "full"))
+    has_const_in = has_node(q, lambda n: n[0] == "insub" and not has_node(n[2], lambda m: m[0] == "col"))
     out = []
     if has_in:
-        out.append((KF_MARK, dict(c, q=deviate(q, tabs, "nonconj", False))))
-        out.append((KF_CONST, dict(c, q=deviate(q, tabs, "all", False))))
+        out.append((KF_MARK, dict(c, q=deviate(q, tabs, {"nonconj"}, False))))
+    if has_const_in:
+        out.append((KF_CONST, dict(c, q=deviate(q, tabs, {"const"}, False))))
+    if has_in and has_const_in:
+        out.append((KF_MARK + " + " + KF_CONST, dict(c, q=deviate(q, tabs, {"nonconj", "const"}, False))))
     if has_all:
-        out.append((KF_SETALL, dict(c, q=deviate(q, tabs, None, True))))
+        out.append((KF_SETALL, dict(c, q=deviate(q, tabs, set(), True))))
     if has_in and has_all:
-        out.append((KF_MARK + " + " + KF_SETALL, dict(c, q=deviate(q, tabs, "nonconj", True))))
-        out.append((KF_CONST + " + " + KF_SETALL, dict(c, q=deviate(q, tabs, "all", True))))
+        out.append((KF_MARK + " + " + KF_SETALL, dict(c, q=deviate(q, tabs, {"nonconj"}, True))))
+    if has_const_in and has_all:
+        out.append((KF_CONST + " + " + KF_SETALL, dict(c, q=deviate(q, tabs, {"const"}, True))))
     if has_outer and drop_sort(q) is not None:
         out.append((KF_SORT, dict(c, q=drop_sort(q))))
     return out
